@@ -138,7 +138,10 @@ def judge(case, w, r, s0, s1, plan_label, out, delivered_events):
     # tolerance: the fault hit the cleanup itself
     cleanup_fault = [e for e in delivered_events
                      if (e['op'] in ('unlink', 'remove', 'rmdir') or
-                         (e['op'] in ('lstat', 'stat') and False))]
+                         # remove_file() probes with lexists() first: a fault
+                         # on that probe is a fault of the withdrawal too
+                         (e['op'] in ('lstat', 'stat') and e['p'] and
+                          (e['p'][0] or '').endswith('.trashinfo')))]
     tb = 'Traceback' in r.errtext()
     if tb:
         # an uncaught OSError is a (crude) failure report: non-zero exit and
@@ -174,7 +177,21 @@ def judge(case, w, r, s0, s1, plan_label, out, delivered_events):
             if cleanup_tolerated(A, cleanup_fault, w):
                 obs['cleanup_fault_tolerated'] = obs.get('cleanup_fault_tolerated', 0) + 1
                 return True
-            kinds = sorted(set(f[0] for f in A.frame))
+            # leftovers other than .trashinfo files whose own removal was the
+            # faulted operation
+            faulted_infos = set(
+                f[1] for f in A.frame if f[0] == 'stray-info' and
+                any((w.R + '/' + f[1]) in (e['p'] or []) for e in cleanup_fault))
+            rest = []
+            for f in A.frame:
+                if f[0] == 'stray-info' and f[1] in faulted_infos:
+                    continue
+                if f[0] == 'unattributed-pair' and \
+                        putcheck.info_for_payload(f[1]) in faulted_infos:
+                    rest.append(('orphan-payload',) + tuple(f[1:]))
+                else:
+                    rest.append(f)
+            kinds = sorted(set(f[0] for f in rest))
             if case['where'] == 'fallback' and kinds == ['orphan-payload'] \
                     and copy_phase(r):
                 return viol('fallback-copy-fault-leaves-orphan-payload',
